@@ -135,6 +135,15 @@ theorem C11_iter_count (g : Spec) (hf : g.finite = true) (hw : g.wf = true) :
   ⟨g.all.length, g.all, C11_size g hf hw,
    C11_iter g hf hw _ (Nat.lt_succ_self _), rfl, C11_all_nodup g hf hw, rfl⟩
 
+theorem sweepPropose_none (g : Spec) : sweepPropose g none = some (some g.first) := rfl
+
+theorem sweepPropose_some (g : Spec) (d : DNA) : sweepPropose g (some d) = g.next d := by
+  unfold sweepPropose sweepStep
+  dsimp only
+  cases g.next d with
+  | none => rfl
+  | some o => cases o <;> rfl
+
 /-- The Sweeping generator proposes the same sequence as `iter_dna` (for every spec: it is the
 same loop over `next_dna`). -/
 theorem C11_sweep (g : Spec) (fuel : Nat) : sweepRun g fuel none = g.iter fuel := by
@@ -144,7 +153,7 @@ theorem C11_sweep (g : Spec) (fuel : Nat) : sweepRun g fuel none = g.iter fuel :
     | zero => intro d; rfl
     | succ f ih =>
       intro d
-      simp only [sweepRun, sweepPropose, iterFrom]
+      simp only [sweepRun, sweepPropose_some, iterFrom]
       cases g.next d with
       | none => rfl
       | some o =>
@@ -153,7 +162,23 @@ theorem C11_sweep (g : Spec) (fuel : Nat) : sweepRun g fuel none = g.iter fuel :
         | some d' => simp [ih d']
   cases fuel with
   | zero => rfl
-  | succ f => simp [sweepRun, sweepPropose, Spec.iter, h]
+  | succ f => simp [sweepRun, sweepPropose_none, Spec.iter, h]
+
+/-- The end of a sweep is absorbing: once `propose()` raised StopIteration, the state is unchanged
+and every further `propose()` raises StopIteration again (no second pass over the space). -/
+theorem C11_sweep_end_absorbing (g : Spec) (last st : Option DNA)
+    (h : sweepStep g last = some (none, st)) :
+    st = last ∧ ∀ n, sweepMore g n st = some (List.replicate n none) := by
+  have hst : st = last := by
+    unfold sweepStep at h
+    split at h <;> simp at h
+    exact h.symm
+  subst hst
+  refine ⟨rfl, ?_⟩
+  intro n
+  induction n with
+  | zero => rfl
+  | succ n ih => simp [sweepMore, h, ih, List.replicate_succ]
 
 /-! ### Shape obligations: the source the model was written from (tables regenerated from /repo on
 every run by translate/t_c11.py; an edit of these functions breaks the named obligation) -/
